@@ -344,5 +344,32 @@ def gen_truth(rng, days, p_bad=0.06, p_cross=0.04):
     return truth
 
 
+def load_obs(o):
+    """observation dict as read back from a replay file (tuples became lists)"""
+    o = dict(o)
+    for k in ("noon", "daily"):
+        if isinstance(o.get(k), list):
+            o[k] = tuple(o[k])
+    return o
+
+
+def replay_report(res, ctx, what):
+    """common tail of the replay functions: report what a single re-evaluated
+    case produced"""
+    diffs = ctx.get("corr_diffs", [])
+    fails = list(res.violations) + [(None, True)] * len(ctx.get("oracle_failures", []))
+    for rep, _ in res.violations:
+        print("replay: FAILS: %s" % rep["what"])
+    for f in ctx.get("oracle_failures", []):
+        last = f[-1]
+        print("replay: FAILS: %s" % (f[-2] if isinstance(last, dict) else last[0] if isinstance(last, tuple) else last,))
+    for _, d in diffs:
+        print("replay: model and implementation differ: %s" % d)
+    if not fails and not diffs:
+        print("replay: property holds on this input (%s)" % what)
+        return 0
+    return 1
+
+
 def covered_days(rows):
     return {d for d, _ in rows} if rows is not None else set()
